@@ -1,11 +1,13 @@
 #!/usr/bin/env python3
-"""print the prompt for a seeded-change sub-agent: tool/seed_prompt.py C07 /tmp/seed/C07"""
+"""print the prompt for a seeded-change sub-agent: tool/seed_prompt.py C07 /tmp/seed/C07 [round]
+(round 2 asks for three changes A, B, C with a diversity requirement)"""
 import json
 import sys
 
 pid, wt = sys.argv[1], sys.argv[2]
+rnd = int(sys.argv[3]) if len(sys.argv) > 3 else 1
 prop = [json.loads(l) for l in open('/verif/properties.jsonl') if json.loads(l)['id'] == pid][0]
-print('''You are helping to evaluate a verification effort for the C++/Qt library QXmpp by playing the role of a developer who
+text = ('''You are helping to evaluate a verification effort for the C++/Qt library QXmpp by playing the role of a developer who
 introduces a realistic regression. You work ONLY inside your own scratch git worktree of the library at
 
     %(wt)s        (already configured and fully built in %(wt)s/_build with Ninja; Qt 5, no network)
@@ -42,3 +44,10 @@ Deliverables, all under %(wt)s/_seed/ (create it):
 When you are done, restore the worktree sources (git -C %(wt)s checkout -- src) so that only _seed/ remains as untracked output.
 In your final answer, summarise A and B in a few lines each (what was changed, where, what triggers it). If you could only
 produce one convincing change, deliver one and say so.''' % {'wt': wt, 'pid': pid, 'prop': json.dumps({k: prop[k] for k in ('id', 'title', 'statement', 'quantifier', 'why_tests_cant', 'anchors')}, indent=1)})
+if rnd == 2:
+    text = text.replace('produce TWO independent source changes (call them A and B)', 'produce THREE independent source changes (call them A, B and C)')
+    text = text.replace('(for change B pick a different mechanism / code site than for A where possible)', '(each at a different code site and through a different mechanism: at most one of the three may be a weakened or dropped condition in the primary handler; at least one must sit in a helper, a secondary path, an error path or a less obvious collaborator of the mechanism, and at least one must be a data-flow, ordering or state-lifetime change - a value taken from the wrong place, something done in the wrong order, state kept or reset at the wrong moment - rather than a changed condition)')
+    text = text.replace('  B/...          the same for change B', '  B/..., C/...   the same for changes B and C')
+    text = text.replace('summarise A and B', 'summarise A, B and C')
+    text = text.replace('If you could only\nproduce one convincing change, deliver one and say so.', 'If you could only produce fewer convincing changes, deliver those and say so.')
+print(text)
